@@ -654,6 +654,15 @@ Fixpoint sel_keys (s : selection) : list name :=
   | SSpread _ _ _ => []          (* the body is the fragment definition, visited on its own *)
   end.
 
+(** the type conditions written in a selection (of inline fragments) and the names of the
+    fragments it spreads *)
+Fixpoint sel_conds (s : selection) : list name :=
+  match s with
+  | SField _ _ sub => flat_map sel_conds sub
+  | SInline c sub => (match c with Some c' => [c'] | None => [] end) ++ flat_map sel_conds sub
+  | SSpread f _ _ => [f]        (* the fragment a spread names becomes a struct field, too *)
+  end.
+
 Definition decl_safe (S : schema) (d : document) : bool :=
   let enums := flat_map (fun t => match t with DEnum n vs => [(n, vs)] | _ => [] end) (s_types S) in
   let composites := flat_map (fun t => match t with
@@ -667,6 +676,8 @@ Definition decl_safe (S : schema) (d : document) : bool :=
     map frag_type_name frag_names in
   let keys := flat_map (fun o => flat_map sel_keys (op_sels o)) (d_ops d) ++
               flat_map (fun f => flat_map sel_keys (fr_sels f)) (d_frags d) in
+  let conds := flat_map (fun o => flat_map sel_conds (op_sels o)) (d_ops d) ++
+               flat_map (fun f => flat_map sel_conds (fr_sels f)) (d_frags d) in
   (* enum types, enum constants, <Op>Data, <F>Fragment: pairwise distinct usable identifiers ... *)
   nodupb declared && forallb go_ident_ok declared &&
   (* ... that cannot coincide with a sel<T><n> type or with the json import *)
@@ -674,7 +685,7 @@ Definition decl_safe (S : schema) (d : document) : bool :=
   (* sel<T1><n1> = sel<T2><n2> needs a type name that ends in a digit *)
   forallb (fun t => negb (ends_with_digit t)) composites &&
   (* struct fields: of fragments (named after the type condition / the fragment) and of response keys *)
-  forallb (fun n => go_ident_ok (field_name n) && negb (starts_with (bs "__") n)) (composites ++ frag_names) &&
+  forallb (fun n => go_ident_ok (field_name n) && negb (starts_with (bs "__") n)) (composites ++ frag_names ++ conds) &&
   forallb (fun k => go_ident_ok (field_name k)) keys.
 
 (** ** Responses shaped by an operation *)
